@@ -79,6 +79,8 @@ def run_enum(desc, prop, selector, hidden_bias=False, dots=(False, True)):
         out.stats['patterns_leading_dot_lit'] += seq[:1] == (('lit', '.'),)
         for dot in dots:
             cfg = {'dot': dot, 'ext': True}
+            if idx % 2 and A.render(seq, True, 1 + idx % 15) != A.render(seq):
+                cfg['variant'] = 1 + idx % 15     # an equivalent spelling: `[^..]`, bare first `]` / last `-`, `\\.`
             lang.eval_fn(seq, cfg, names, out, armed, prop, selector(dot), entry=idx % 3)
         if idx % 4 == 0 and A.has_ext(seq) and True in dots:
             cfg = {'dot': True, 'ext': False}
@@ -133,6 +135,8 @@ def run_hyp(desc, prop, selector, hidden_bias=False):
         cfg = {'dot': dot, 'ext': True}
         if entry == 1 and A.render_loose(seq) != A.render(seq):
             cfg['loose'] = True
+        elif entry == 2:
+            cfg['variant'] = data.draw(st.integers(0, 15))
         if mode == 'icase':
             cfg['icase'] = True
         elif mode == 'case':
